@@ -47,6 +47,8 @@ type Stats struct {
 	Bound      int
 	Aborted    int
 	FirstAbort string
+	First      *Outcome        // the default (deviation-free) execution
+	Finals     map[uint64]bool // distinct final state keys of complete executions
 }
 
 // Violation is a failed check with the schedule that produced it.
@@ -82,7 +84,7 @@ func Explore(sc *Scenario, opts Options) (Stats, []Violation) {
 		opts.Bound = 1 << 30
 		opts.UseCache = true
 	}
-	st := Stats{Outcomes: map[string]int{}, Exhaustive: true, Bound: opts.Bound}
+	st := Stats{Outcomes: map[string]int{}, Exhaustive: true, Bound: opts.Bound, Finals: map[uint64]bool{}}
 	var cache *Cache
 	if opts.UseCache {
 		cache = NewCache()
@@ -105,6 +107,9 @@ func Explore(sc *Scenario, opts Options) (Stats, []Violation) {
 		stack = stack[:len(stack)-1]
 		o := run(fr.prefix, &opts, cache, sc.Body)
 		st.Execs++
+		if st.First == nil {
+			st.First = o
+		}
 		st.Steps += int64(o.Steps)
 		if len(o.Points) > st.MaxPoints {
 			st.MaxPoints = len(o.Points)
@@ -132,6 +137,9 @@ func Explore(sc *Scenario, opts Options) (Stats, []Violation) {
 			}
 			if sched || opts.Bound == 0 {
 				st.Nontrivial++
+			}
+			if len(st.Finals) < 1000000 {
+				st.Finals[o.FinalKey] = true
 			}
 			if len(st.Outcomes) < 100000 {
 				st.Outcomes[fmt.Sprint(o.Deadlock, o.Panic != "", o.Log)]++
